@@ -309,15 +309,6 @@ func (e *verifC12MEnv) scenario(idx int, a, b *verifC12MLayer) error {
 	if err := fsys.Check(ctx, mpA, a.labels()); err != nil {
 		e.out.Fail("mounted-layer-stopped-serving", fmt.Sprintf("%s: Check of the mounted layer after the TTL: %v", tag, err))
 	}
-	if err := fsys.Mount(ctx, mpA, a.labels()); err == nil {
-		e.out.Fail("double-mount-accepted", tag+": a second Mount on a mountpoint in use returned nil")
-	} else {
-		// the first mount is untouched
-		e.check("mounted-layer-stopped-serving", tag+" after a refused second Mount", mpA, a, late[0])
-		if err := fsys.Check(ctx, mpA, a.labels()); err != nil {
-			e.out.Fail("mounted-layer-stopped-serving", fmt.Sprintf("%s: Check after a refused second Mount: %v", tag, err))
-		}
-	}
 	// everything that is on disk now belongs to A (B unmounted, failed mounts expired)
 	if d := verifC12MDirs(root); len(d) > 2 {
 		e.out.Fail("leak-after-failed-mount", fmt.Sprintf("%s: one layer is mounted but the resolver root holds %v", tag, d))
@@ -353,7 +344,58 @@ func (e *verifC12MEnv) scenario(idx int, a, b *verifC12MLayer) error {
 	return nil
 }
 
+// twice: a second Mount on a mountpoint that is in use.  CANDIDATE FINDING of the unchanged tree, kept
+// in its own test (own filesystem, own stream) so that it cannot mask or cause any other verdict:
+// fs.Mount does not look at fs.layer[mountpoint]; the second Mount succeeds, stacks a second FUSE
+// mount on the directory and overwrites the registered layer, whose reference is then never released
+// (Unmount closes only the second one): the first layer and its two cache directories stay for ever.
+func (e *verifC12MEnv) twice(a *verifC12MLayer) {
+	ctx := context.Background()
+	e.out.Comment("second Mount on a mountpoint in use")
+	fsys, root := e.newFS()
+	mp := e.mountpoint()
+	if err := fsys.Mount(ctx, mp, a.labels()); err != nil {
+		e.out.Fail("remount-failed", fmt.Sprintf("twice: first Mount: %v", err))
+		return
+	}
+	e.check("mounted-bytes-differ", "twice: first mount", mp, a, a.names[0])
+	time.Sleep(verifC12MTTL) // the second Mount resolves a new instance
+	err2 := fsys.Mount(ctx, mp, a.labels())
+	e.check("mounted-layer-stopped-serving", "twice: after the second Mount", mp, a, a.names[1])
+	// release whatever is mounted there, as often as something is
+	for i := 0; i < 3; i++ {
+		fsys.Unmount(ctx, mp)
+		verifC12MLazyUnmount(mp)
+	}
+	time.Sleep(verifC12MTTL)
+	if d := verifC12MDirs(root); len(d) != 0 {
+		e.out.Fail("double-mount-leaks-layer", fmt.Sprintf("second Mount on a mountpoint in use returned %v; after unmounting everything and the TTL the resolver root still holds %v", err2, d))
+	}
+	e.out.Count("twice")
+}
+
+func TestVerifC12MountTwice(t *testing.T) {
+	verifC12MRun(t, func(e *verifC12MEnv) error {
+		e.twice(verifC12MBuild(t, e.rnd, e.reg, 4))
+		return nil
+	})
+}
+
 func TestVerifC12Mount(t *testing.T) {
+	verifC12MRun(t, func(e *verifC12MEnv) error {
+		n := verifutil.EnvInt("VERIF_N", 2)
+		for i := 0; i < n; i++ {
+			a := verifC12MBuild(t, e.rnd, e.reg, 6+e.rnd.Intn(4))
+			b := verifC12MBuild(t, e.rnd, e.reg, 3)
+			if err := e.scenario(i, a, b); err != nil {
+				return err
+			}
+		}
+		return nil
+	})
+}
+
+func verifC12MRun(t *testing.T, body func(e *verifC12MEnv) error) {
 	out := verifutil.OpenOut()
 	defer out.Close()
 	out.Comment("oracle-only pass over fs.Mount/Check/Unmount with a real FUSE mount; nothing to compare with the model")
@@ -387,15 +429,10 @@ func TestVerifC12Mount(t *testing.T) {
 		}
 		os.RemoveAll(base)
 	})
-	n := verifutil.EnvInt("VERIF_N", 2)
-	for i := 0; i < n; i++ {
-		a := verifC12MBuild(t, e.rnd, e.reg, 6+e.rnd.Intn(4))
-		b := verifC12MBuild(t, e.rnd, e.reg, 3)
-		if err := e.scenario(i, a, b); errors.Is(err, errVerifC12MNoFuse) {
-			out.Count("fuse-unavailable")
-			out.Comment("fuse-unavailable: the first Mount was refused by the kernel")
-			return
-		}
+	if err := body(e); errors.Is(err, errVerifC12MNoFuse) {
+		out.Count("fuse-unavailable")
+		out.Comment("fuse-unavailable: the first Mount was refused by the kernel")
+		return
 	}
 	if left := verifC12MMounted(filepath.Base(base)); len(left) != 0 {
 		out.Fail("leak-after-unmount", fmt.Sprintf("mountpoints still mounted at the end: %v", left))
